@@ -62,7 +62,7 @@ type aRes struct {
 }
 
 var extCode = map[string]uint16{
-	"sni": 0, "alpn": 16, "sv": 43, "ks": 51, "sg": 10, "psk": 41, "gr": 0x0a0a, "x0": 23, "x1": 0x1234, "x2": 0x5678, "x9": 0x9999,
+	"sni": 0, "alpn": 16, "sv": 43, "ks": 51, "sg": 10, "psk": 41, "gr": 0x0a0a, "x0": 23, "p21": 21, "x1": 0x1234, "x2": 0x5678, "x9": 0x9999,
 	"ech": 0xfe0d, "eoe": 0xfd00, "echdup": 0xfe0d, "echdupi": 0xfe0d,
 }
 
@@ -243,6 +243,15 @@ func (kr *keyring) serverKeys(names []string) []ech.Key {
 var keySplit atomic.Int64
 
 func keyOptions(keys []ech.Key) []ech.Option {
+	if len(keys) == 0 { // "no keys" said in every way an application can
+		switch keySplit.Add(1) % 3 {
+		case 0:
+			return nil
+		case 1:
+			return []ech.Option{ech.WithKeys(nil)}
+		}
+		return []ech.Option{ech.WithKeys([]ech.Key{})}
+	}
 	if len(keys) < 2 {
 		return []ech.Option{ech.WithKeys(keys)}
 	}
@@ -458,6 +467,9 @@ func (s *sealer) extBody(h *aHello, x aExt, o encOpts, op string, zeroPayloadLen
 	}
 	if x.T == "x0" { // an extension without a body (extended_master_secret)
 		return nil
+	}
+	if x.T == "p21" { // RFC 7685 padding: zeros
+		return make([]byte, 11)
 	}
 	return opaqueVal(x.V, o)
 }
